@@ -20,11 +20,12 @@ let parse_op t = match t with
   | ["D"; n] -> CDrop (n_of_tok n)
   | ["CH"; u] -> CCloseH (n_of_tok u)
   | ["DH"; u] -> CDropH (n_of_tok u)
+  | ["CE"; n] -> CCloseE (n_of_tok n)
   | _ -> failwith ("bad op " ^ String.concat " " t)
 
 let res_tok = function
   | RHandle u -> "h" ^ tn u | ROpenErr -> "openerr" | ROk -> "ok" | ROverClose -> "overclose"
-  | RNoHandle -> "nohandle" | RPanic -> "PANIC" | RDead -> "dead"
+  | RNoHandle -> "nohandle" | RPanic -> "PANIC" | RDead -> "dead" | RCloseErr -> "closeerr"
 let ev_tok = function
   | UOpen (n, u) -> "open:" ^ tn n ^ ":" ^ tn u | UOpenFail n -> "openfail:" ^ tn n
   | UClose u -> "close:" ^ tn u | UDrop u -> "drop:" ^ tn u
@@ -32,7 +33,7 @@ let evs_tok l = if l = [] then "-" else String.concat "," (List.map ev_tok l)
 
 let parse_res s =
   if s = "openerr" then Some ROpenErr else if s = "ok" then Some ROk else if s = "overclose" then Some ROverClose
-  else if s = "nohandle" then Some RNoHandle else if s = "PANIC" then Some RPanic else if s = "dead" then Some RDead
+  else if s = "closeerr" then Some RCloseErr else if s = "nohandle" then Some RNoHandle else if s = "PANIC" then Some RPanic else if s = "dead" then Some RDead
   else if String.length s > 1 && s.[0] = 'h' then
     (try Some (RHandle (n_of_tok (String.sub s 1 (String.length s - 1)))) with _ -> None)
   else None
@@ -61,11 +62,11 @@ let resolve s t = match t with
   | _ -> parse_op t
 
 let name_of s o = match o with
-  | COpen (n, _) | CClose n | CDrop n -> n
+  | COpen (n, _) | CClose n | CDrop n | CCloseE n -> n
   | CCloseH u | CDropH u -> (match alookup u s.handles with Some n -> n | None -> n_of_tok "999999")
 let kcall s o r = match o with
   | COpen _ -> KOpen (name_of s o, r)
-  | CClose _ | CCloseH _ -> KClose (name_of s o, r)
+  | CClose _ | CCloseH _ | CCloseE _ -> KClose (name_of s o, r)
   | CDrop _ | CDropH _ -> KDrop (name_of s o, r)
 
 let sort_evs l = List.sort compare (List.map ev_tok l)
@@ -151,12 +152,17 @@ let eval inp obs =
             | [r; e] -> (match parse_res r with Some r -> ((o, r), parse_evs e) | None -> failwith "res")
             | _ -> failwith "group") ops impl_groups)
         with _ -> None) in
-      let spec_ok = if not by_name then None else
-        (match impl_trace with None -> Some false | Some tr -> Some (trace_ok tr && conc_ok (List.rev !igroups) && !iok)) in
+      (* histories with scripted underlying Close errors (CE): the trace specification does not
+         know the op; the counting clauses (conc_ok) are evaluated instead *)
+      let by_name_ce = List.for_all (fun o -> by_name_op o || (match o with CCloseE _ -> true | _ -> false)) ops in
+      let spec_ok = if by_name then
+          (match impl_trace with None -> Some false | Some tr -> Some (trace_ok tr && conc_ok (List.rev !igroups) && !iok))
+        else if by_name_ce then Some (!iok && conc_ok (List.rev !igroups)) else None in
       { default_verdict with
         model_obs = tokens model_s;
         spec_ok = spec_ok;
-        model_spec_ok = (not by_name) || (trace_ok (List.rev !mtrace) && conc_ok (List.rev !mgroups));
+        model_spec_ok = (if by_name then trace_ok (List.rev !mtrace) && conc_ok (List.rev !mgroups)
+                         else if by_name_ce then conc_ok (List.rev !mgroups) else true);
         nontrivial = List.exists (fun ((_, _), ev) -> List.exists (function UClose _ -> true | _ -> false) ev) !mtrace;
         note = (match spec_ok with Some false -> "trace violates CachedProducerSpec.trace_ok / conc_ok" | _ -> "") }
     end
